@@ -18,6 +18,7 @@ def minResponsePduLen : FunctionCode → Nat
   | .readWriteMultipleRegisters => 2
   | .writeSingleCoil => 3
   | .writeMultipleCoils | .writeSingleRegister | .writeMultipleRegisters => 5
+  | .readExceptionStatus => 2
   | _ => 1
 
 /-- `ExceptionResponse::try_from(&[u8])` -/
@@ -51,7 +52,7 @@ def Request.decode (bytes : Bytes) : Res Request :=
   | .writeMultipleCoils =>
     (read16 bytes 1).bind fun a => (read16 bytes 3).bind fun q =>
     (idx bytes 5).bind fun byteCount =>
-    if bytes.length < 6 + byteCount.toNat then .err (.byteCount byteCount) else
+    if bytes.length < 6 + byteCount.toNat ∨ packedCoilsLen q.toNat > 255 then .err (.byteCount byteCount) else
     (sliceFrom bytes 6).bind fun data =>
     .ok (.writeMultipleCoils a { data := data, quantity := q.toNat })
   | .writeMultipleRegisters =>
@@ -110,6 +111,8 @@ def Response.decode (bytes : Bytes) : Res Response :=
     if bc.toNat + 2 > bytes.length then .err .bufferSize else
     (slice bytes 2 (2 + bc.toNat / 2 * 2)).bind fun data =>
     .ok (.readWriteMultipleRegisters { data := data, quantity := bc.toNat / 2 })
+  | .readExceptionStatus =>
+    (idx bytes 1).bind fun s => .ok (.readExceptionStatus s)
   | _ =>
     (sliceFrom bytes 1).bind fun d => .ok (.custom (FunctionCode.new fnCode) d)
 
